@@ -2,6 +2,7 @@ import Driver.Codec
 import LopdfModel.Model.Write
 import LopdfModel.Model.Parse
 import LopdfModel.Model.File
+import LopdfModel.Model.SaveIncrJ
 namespace Lopdf.Driver.C01
 open Lopdf Lopdf.Codec
 
@@ -45,7 +46,7 @@ def handle (op : String) (args : List String) : Option String :=
         | some (os, []) =>
           let d : SDoc := { version := version, binaryMark := bm, trailer := tr, objects := os, maxId := maxId,
                             xrefKind := if kind = "stream" then .stream else .table }
-          match saveIncr pv d with
+          match saveIncrJ pv d with
           | some (bytes, d') => "ok " ++ hexTok bytes ++ " " ++ toString d'.maxId ++ " " ++ showObj (.dict d'.trailer)
           | none => "err"
         | _ => "bad-op"
